@@ -19,6 +19,8 @@ def impl_batch(case):
     for it in case["items"]:
         try:
             X = np.array([[float(Fraction(x)) for x in row] for row in it["X"]], dtype=float)
+            if it.get("dtype"):
+                X = X.astype(it["dtype"])        # integer-valued (or 0/1) matrices stored in an integer / boolean array
             dec = birkhoff_von_neumann(np.array(X))
             out.append({"terms": [{"z": fr(Fraction(float(z))), "P": [[int(round(float(v))) if float(v) in (0.0, 1.0) else fr(Fraction(float(v))) for v in row] for row in Pm]}
                                   for z, Pm in dec]})
@@ -35,9 +37,24 @@ def rand_perm(rng, n):
 
 def gen(R, n):
     """matrix as exact rationals of floats + kind tag"""
-    kind = R.rng.choice(["dyadic", "dyadic", "uniform", "generic", "scaled_dyadic", "conic_int", "scaled_generic", "scaled_uniform"])
+    kind = R.rng.choice(["dyadic", "dyadic", "uniform", "generic", "scaled_dyadic", "conic_int", "scaled_generic", "scaled_uniform", "near_equal", "zero"])
     k = R.rng.randint(1, min(6, max(1, n * n // 2)))
     perms = [rand_perm(R.rng, n) for _ in range(k)]
+    if kind == "zero":
+        # the zero matrix is balanced too (common sum 0): the decomposition is empty
+        return [[Fraction(0)] * n for _ in range(n)], kind, True
+    if kind == "near_equal":
+        # weights that agree to 1e-5 .. 1e-7 relative: entries of one matching nearly, but not exactly, equal
+        k = max(2, k)
+        perms = [rand_perm(R.rng, n) for _ in range(k)]
+        base = R.rng.choice([0.5, 0.25, 1.0, 3.0])
+        ws = [Fraction(base * (1 + R.rng.choice([0, 1, -1, 2]) * R.rng.choice([1e-5, 2e-6, 1e-6, 1e-7]))) for _ in range(k)]
+        X = [[Fraction(0)] * n for _ in range(n)]
+        for w, p in zip(ws, perms):
+            for i in range(n):
+                X[i][p[i]] += w
+        Xf = [[Fraction(float(x)) for x in row] for row in X]
+        return Xf, kind, False
     if kind == "dyadic":
         raw = [R.rng.randint(1, 16) for _ in range(k)]
         tot = 64
@@ -89,7 +106,7 @@ def balanced_sum(X):
 def judge(R, it, res, ans):
     X = [[Fraction(x) for x in row] for row in it["X"]]
     n = len(X)
-    inp = {"X": it["X"], "kind": it["kind"]}
+    inp = {"X": it["X"], "kind": it["kind"], "dtype": it.get("dtype")}
     if "exc" in res or "hang" in res:
         R.violation("property_violation", "terminates without raising on a matrix with equal row and column sums", ENTRY, inp, impl_output=res,
                     oracle="raised/hang")
@@ -231,7 +248,12 @@ def run(R):
     for t in range(cnt):
         n = R.rng.randint(1, 7 if R.thorough else 6)
         X, kind, exact = gen(R, n)
-        items.append({"X": [[fr(x) for x in row] for row in X], "kind": kind, "exact": exact})
+        it = {"X": [[fr(x) for x in row] for row in X], "kind": kind, "exact": exact}
+        if all(x.denominator == 1 for row in X for x in row) and R.rng.random() < 0.7:
+            mx = max([x for row in X for x in row] + [Fraction(0)])
+            it["dtype"] = "bool" if mx <= 1 and R.rng.random() < 0.4 else R.rng.choice(["int64", "int32"] + (["int8", "uint8"] if mx <= 100 else []))
+            R.count("integer_matrix_storage:" + it["dtype"])
+        items.append(it)
     items += eating_outputs(R, 600 if R.thorough else 60)
     run_items(R, items)
 
@@ -240,4 +262,4 @@ def replay(R, rep):
     inp = rep["input"]
     X = inp["X"]
     exact = all(Fraction(x).denominator in (1, 2, 4, 8, 16, 32, 64, 128) for row in X for x in row)
-    run_items(R, [{"X": X, "kind": inp.get("kind", "replay"), "exact": exact}])
+    run_items(R, [{"X": X, "kind": inp.get("kind", "replay"), "exact": exact, "dtype": inp.get("dtype")}])
